@@ -41,7 +41,7 @@ def check(repo, col, tier):
     _c11._named(repo, col, "R-C10-select")
     col.rule("R-C10-edges", "a view selected by nodes shows an edge iff both of its ends are in view (set through the view touches no other synapse)", 3)
     _c11._edges(repo, col, "R-C10-edges")
-    col.rule("R-C10-tables", "the parameters start from the table columns of the same name", 3)
+    col.rule("R-C10-tables", "the parameters start from the table columns of the same name", 2)
     table_values(repo, col, "R-C10-tables")
     col.rule("R-C10-classify", "a trainable is intersected with the view's rows of its own table (nodes vs edges)", 3)
     _c19._classify(repo, col, "R-C10-classify")
@@ -724,15 +724,35 @@ def table_values(repo, col, R):
     base = [s_ for s_ in ex.stores if s_.kind == "sub" and isinstance(s_.node, ast.Subscript) and
             (s_.key.op == "elem" or (s_.key.op == "item" and s_.key.args and s_.key.args[0].op == "elem")) and
             T.find(s_.key, lambda x: x.op == "param" and x.name == fi.params[1]) is None]
-    if len(base) < 3:
-        col.unk(R, fi, "get_all_parameters starts from the table values", f"only {len(base)} base stores found", node=fi.node)
-        return
+    class _E:
+        pass
+    entries = []
     for s_ in base:
+        e_ = _E()
+        e_.key, e_.value, e_.node = s_.key, s_.value, s_.node
+        entries.append(e_)
+    # ... or built as dictionary comprehensions (assigned, or merged with .update)
+    seen_dc = set()
+    for s_ in ex.stores:
+        for t_ in [s_.base, s_.value]:
+            if t_ is None:
+                continue
+            for x in t_.walk():
+                if x.op == "dictcomp" and len(x.args) >= 3 and x.key() not in seen_dc and \
+                        T.find(x, lambda y: y.op == "attr" and y.name in ("jaxnodes", "jaxedges")) is not None:
+                    seen_dc.add(x.key())
+                    e_ = _E()
+                    e_.key, e_.value, e_.node = x.args[0], x.args[1], x.node or s_.node
+                    entries.append(e_)
+    if len(entries) < 2:
+        col.unk(R, fi, "get_all_parameters starts from the table values", f"only {len(entries)} base entries found", node=fi.node)
+        return
+    for s_ in entries:
         v = s_.value
         own = v.op == "sub" and v.args[0].op == "attr" and v.args[0].name in ("jaxnodes", "jaxedges") and v.args[1].key() == s_.key.key()
         edge_key = T.find(s_.key, lambda x: x.op == "attr" and x.name in ("synapse_param_names", "synapse_params")) is not None
         right_tbl = own and ((v.args[0].name == "jaxedges") == edge_key)
-        col.check(own and right_tbl, R, fi, f"get_all_parameters: `{unparse(s_.node)[:50]}` is the table column of the same name", "jaxnodes[name] / jaxedges[name]",
+        col.check(own and right_tbl, R, fi, f"get_all_parameters: `{unparse(s_.node)[:50] if s_.node is not None else s_.key.short(40)}` is the table column of the same name", "jaxnodes[name] / jaxedges[name]",
                   f"the entry is `{v.short(90)}`: not the table value of that parameter (a default or a masked copy substituted here reaches every channel that "
                   f"shares the name; compartments that hold only the other channel lose their own value)", node=s_.node)
 
